@@ -12,6 +12,8 @@
       ADD, REMOVE := none | MANY
     (req METHOD SLASH (path C…) (accept (MEDIA (P…) ERR)…) (query K…) (body PATCH POST REL MEM))
                                                      → (out WRITTEN REFSTATUS)
+    (inject ST…)                                     → (out WRITTEN FIRSTERRORSTATUS)   -- serveResponse on a
+                                                       document with exactly these errors (verif hook)
       PATCH := err | (ok T I)   POST := err | (ok T)   REL, MEM := err | ok
       WRITTEN := (panic) | (wrote STATUS CTYPE (headers (K V)…) DOC)
       DOC  := (doc (jsonapi V|none) DATA (errors ST…) (links (K V)…))
@@ -212,6 +214,13 @@ def handle (s : Schema) (line : String) : Schema × String :=
     match ts.mapM parseType with
     | some s' => (s', "ok")
     | none => (s, "bad-schema")
+  | some (.list (.atom "inject" :: sts)) =>
+    match sts.mapM parseST with
+    | some l =>
+      let es : List Err := l.map (fun st => ⟨st⟩)
+      (s, toString (Sexp.node "out" [writtenSexp (serveResponse { doc := { errors := es } }),
+        Sexp.ofNat (if es.isEmpty then 200 else Spec.firstErrorStatus es)]))
+    | none => (s, "bad-op")
   | some x =>
     match parseReq x with
     | some r =>
